@@ -16,8 +16,10 @@ NOT modelled (exercised by the harness oracle only): serde_json's text layer, th
 -/
 import FuelVerif.Lemmas.SerdeTree
 import FuelVerif.Lemmas.PoliciesSerde
+import FuelVerif.Lemmas.SerdeCheck
+import FuelVerif.Lemmas.PoliciesWire
 namespace FuelVerif.C06
-open FuelVerif.Serde FuelVerif.PoliciesSerde FuelVerif.Gen.Policies
+open FuelVerif.Serde FuelVerif.PoliciesSerde FuelVerif.Gen.Policies FuelVerif.Gen.SerdeShapes
 
 /-! ### (1) binary formats -/
 
@@ -189,6 +191,120 @@ theorem upgrade_checksum_mismatch {CP : Type} (H : Bytes → Bytes) (dec : Bytes
     upgradeCompute H dec ws i c = .error .checksumMismatch := by
   simp [upgradeCompute, hw, hc]
 
+/-! ### (4) the shapes of the real types (regenerated from the Rust sources by tools/gen/serde_shapes.py) -/
+
+/-- obligations on the generated table: the list of type names is complete and names are distinct
+(`ofString?` inverts `toString`), every generated shape is well formed — each enum has at least one variant
+and its variant count fits the `u32` index both formats write — and the table is closed: every type a
+definition refers to has a shape of its own. (That the Lean definitions only mention defined shapes is
+enforced by elaboration; `refs` restates it on the names the translator recorded.) -/
+theorem generated_shapes_closed :
+    (∀ T : TypeName, T ∈ TypeName.all) ∧
+    (∀ T : TypeName, TypeName.ofString? T.toString = some T) ∧
+    (∀ T : TypeName, wfB (shapeOf T) = true) ∧
+    refs.map (·.1) = TypeName.all.map TypeName.toString ∧
+    refs.all (fun nr => nr.2.all (fun r => (TypeName.ofString? r).isSome)) = true := by
+  have hall : ∀ T : TypeName, T ∈ TypeName.all := by intro T; cases T <;> decide +kernel
+  have h2 : TypeName.all.all (fun T => TypeName.ofString? T.toString == some T) = true := by decide +kernel
+  have h3 : TypeName.all.all (fun T => wfB (shapeOf T)) = true := by decide +kernel
+  refine ⟨hall, ?_, ?_, by decide +kernel, by decide +kernel⟩
+  · intro T
+    have := List.all_eq_true.mp h2 T (hall T)
+    simpa using this
+  · intro T
+    exact List.all_eq_true.mp h3 T (hall T)
+
+/-- **postcard round trip of every real type**: for each type `T` reachable from Transaction, Receipt,
+Input, Output, Policies, ConsensusParameters, GasCosts and every serde tree of the shape generated for `T`,
+decoding the encoding (followed by anything) with that shape gives the tree back and consumes exactly it. -/
+theorem real_type_roundtrip (T : TypeName) (tree : Tree) (rest : Bytes) (h : HasShape (shapeOf T) tree) :
+    pcDec (shapeOf T) (pcEnc tree ++ rest) = some (tree, rest) := postcard_roundtrip _ tree rest h
+
+/-- the same for bincode (legacy default options) -/
+theorem real_type_roundtrip_bincode (T : TypeName) (tree : Tree) (rest : Bytes) (h : HasShape (shapeOf T) tree) :
+    bcDec (shapeOf T) (bcEnc tree ++ rest) = some (tree, rest) := bincode_roundtrip _ tree rest h
+
+/-- the decoders the driver runs against the real crates (`pcDecode`/`bcDecode`: shape decoder, then the
+hand-written visitor's own validation at `sel` nodes, decided shape membership `hasShapeB`) satisfy the same
+round trip -/
+theorem real_type_decode_roundtrip (T : TypeName) (tree : Tree) (rest : Bytes)
+    (h : hasShapeB (shapeOf T) tree = true) (hv : leavesOk policiesValid (shapeOf T) tree = true) :
+    pcDecode policiesValid (shapeOf T) (pcEnc tree ++ rest) = some (tree, rest) ∧
+    bcDecode policiesValid (shapeOf T) (bcEnc tree ++ rest) = some (tree, rest) := by
+  have hs := (hasShapeB_iff tree (shapeOf T)).mp h
+  exact ⟨pcDecode_eq_of_ok _ _ _ _ _ (real_type_roundtrip T tree rest hs) hv,
+         bcDecode_eq_of_ok _ _ _ _ _ (real_type_roundtrip_bincode T tree rest hs) hv⟩
+
+/-- non-vacuity for EVERY generated type: each shape has a tree, and that tree round-trips -/
+theorem real_types_inhabited (T : TypeName) :
+    HasShape (shapeOf T) (witness (shapeOf T)) ∧
+    pcDec (shapeOf T) (pcEnc (witness (shapeOf T))) = some (witness (shapeOf T), []) := by
+  have h := witness_hasShape (shapeOf T) (generated_shapes_closed.2.2.1 T)
+  refine ⟨h, ?_⟩
+  have := real_type_roundtrip T _ [] h
+  simpa using this
+
+/-! ### (5) Policies end to end: bytes → generated layout-dependent shape → `visit_seq` → value -/
+
+/-- what `impl Serialize for Policies` emits has the shape generated for `Policies` (so the binary decoders
+are asked for the right layout), for every bit set that fits `u32` and word-sized values -/
+theorem policies_ser_hasShape (p : Policies) (h : Stable p) (hb : p.bits < 2 ^ 32)
+    (hv : ∀ v ∈ p.values, v < 2 ^ 64) : HasShape (shapeOf .TPolicies) (ser p) := by
+  have hm : legacyMaskSer = legacyMaskSeq := by decide
+  have hshape : shapeOf .TPolicies =
+      .sel allMask legacyMaskSeq (.tuple (List.replicate 4 .u64)) (.seq .u64) := rfl
+  rw [hshape]
+  unfold Stable at h
+  rcases p with ⟨bits, vals⟩
+  simp only at hb hv h
+  by_cases hl : isLegacy legacyMaskSer bits = true
+  · have hl' : selLegacy allMask legacyMaskSeq bits = true := by rw [← hm, ← isLegacy_eq_selLegacy]; exact hl
+    simp only [hl, if_true] at h
+    have hlen4 : (vals.take 4).length = 4 := by simp [List.length_take, h.1, policiesNumber]
+    have hsh := listShape_replicate_u64 (vals.take 4) (fun v hv' => hv v (List.mem_of_mem_take hv'))
+    rw [hlen4] at hsh
+    simp only [ser, hl, if_true, HasShape, hl']
+    exact ⟨hb, hsh⟩
+  · have hl0 : isLegacy legacyMaskSer bits = false := by simpa using hl
+    have hl' : selLegacy allMask legacyMaskSeq bits = false := by rw [← hm, ← isLegacy_eq_selLegacy]; exact hl0
+    simp only [ser, hl0, Bool.false_eq_true, if_false, HasShape, hl']
+    refine ⟨hb, ?_, allShape_u64 _ (fun v hv' => hv v (gather_mem bits vals flagBits v hv'))⟩
+    have := gather_length_le bits vals flagBits
+    have h6 : flagBits.length = 6 := by decide
+    simp only [List.length_map]
+    omega
+
+/-- **`postcard::from_bytes::<Policies>(postcard::to_allocvec(&p)) == p`**, composed from the three layers:
+`ser`, the postcard model with the shape generated from policies.rs, and `visit_seq`; for every mask (any
+`u32` bit set, legacy and compact layouts) and every stable value array; trailing bytes are returned untouched -/
+theorem policies_postcard_roundtrip (p : Policies) (h : Stable p) (hb : p.bits < 2 ^ 32)
+    (hv : ∀ v ∈ p.values, v < 2 ^ 64) (rest : Bytes) :
+    policiesFromWire pcDec (policiesToWire pcEnc p ++ rest) = some (p, rest) := by
+  have h1 := real_type_roundtrip .TPolicies (ser p) rest (policies_ser_hasShape p h hb hv)
+  simp [policiesFromWire, policiesToWire, h1, policies_serde_roundtrip_seq p h]
+
+/-- the same through bincode -/
+theorem policies_bincode_roundtrip (p : Policies) (h : Stable p) (hb : p.bits < 2 ^ 32)
+    (hv : ∀ v ∈ p.values, v < 2 ^ 64) (rest : Bytes) :
+    policiesFromWire bcDec (policiesToWire bcEnc p ++ rest) = some (p, rest) := by
+  have h1 := real_type_roundtrip_bincode .TPolicies (ser p) rest (policies_ser_hasShape p h hb hv)
+  simp [policiesFromWire, policiesToWire, h1, policies_serde_roundtrip_seq p h]
+
+/-- whatever bytes either binary format accepts as `Policies` decode to a stable value: decoding is a
+retraction onto the values that round-trip (with `policies_postcard_roundtrip`: decode ∘ encode ∘ decode = decode) -/
+theorem policies_wire_image_stable (dec : Shape → Bytes → Option (Tree × Bytes)) (bs r : Bytes) (p : Policies)
+    (h : policiesFromWire dec bs = some (p, r)) : Stable p := by
+  unfold policiesFromWire at h
+  split at h
+  · rename_i t r' _
+    cases hd : deSeq t with
+    | error e => simp [hd] at h
+    | ok q =>
+      simp only [hd, Option.some.injEq, Prod.mk.injEq] at h
+      rw [← h.1]
+      exact deSeq_image_stable t q hd
+  · simp at h
+
 /-! ### non-vacuity -/
 example : Stable ⟨0b110101, [7, 0, 9, 0, 11, 13]⟩ := by
   apply canonical_stable; exact ⟨by decide, by simp [UnsetZero, flagBits, flags]; decide⟩
@@ -200,5 +316,20 @@ example : deSeq (ser ⟨0b100000, [1, 0, 0, 0, 0, 5]⟩) = .ok ⟨0b100000, [0, 
 example : HasShape (.tuple [.u32, .seq .u64]) (.tuple [.u32 53, .seq [.u64 7, .u64 9, .u64 11, .u64 13]]) := by
   simp [HasShape, ListShape, AllShape]
 example : pcEnc (.tuple [.u32 300, .seq [.u64 1]]) = [0xAC, 0x02, 0x01, 0x01] := by rfl
+-- the generated shapes are the ones the real types have: TxPointer = (BlockHeight(u32), u16); UtxoId = (Bytes32, u16)
+example : shapeOf .TTxPointer = .tuple [.u32, .u16] := rfl
+example : HasShape (shapeOf .TTxPointer) (.tuple [.u32 7, .u16 9]) := by
+  simp [shapeOf, sTxPointer, sBlockHeight, HasShape, ListShape]
+example : pcDec (shapeOf .TTxPointer) [0x07, 0x09, 0xAA] = some (.tuple [.u32 7, .u16 9], [0xAA]) := by rfl
+-- a compact-layout Policies (Owner set) end to end through the generated shape, with a trailing byte left over
+example : policiesFromWire pcDec (policiesToWire pcEnc ⟨0b100001, [7, 0, 0, 0, 0, 5]⟩ ++ [0xEE]) =
+    some (⟨0b100001, [7, 0, 0, 0, 0, 5]⟩, [0xEE]) := by rfl
+example : policiesToWire pcEnc ⟨0b100001, [7, 0, 0, 0, 0, 5]⟩ = [0x21, 0x02, 0x07, 0x05] := by rfl
+-- a value count that does not match the bits is rejected by `visit_seq` although the bytes have the shape
+example : policiesFromWire pcDec [0x21, 0x01, 0x07] = none := by rfl
+example : (pcDec (shapeOf .TPolicies) [0x21, 0x01, 0x07]).isSome = true := by rfl
+-- out-of-range variant index / bad option tag are rejected
+example : pcDec (shapeOf .TOutput) [0x05] = none := by rfl
+example : pcDec (.option .u8) [0x02, 0x00] = none := by rfl
 
 end FuelVerif.C06
